@@ -323,6 +323,95 @@ theorem prediction_return_code (v : Variant) (s : Script K)
     simp [h1, h2, hp, h3]
   exact integrate_ret_some v s hc
 
+/-- **the speed of sound is computed iff the +100 flag is set** (with `speed_of_sound_only_if_flag`):
+a successful call with the flag has stored `d.speed_of_sound` -/
+theorem speed_of_sound_computed_if_flag (v : Variant) (s : Script K)
+    (hs : (integrate v s).ret ≠ -1) (hf : 50 < s.k0) :
+    Event.write Out.sos ∈ (integrate v s).st.ev := by
+  have hfl : flagged s.k0 = true := (flagged_iff _).2 hf
+  have hsucc : succeeds s := by
+    by_contra h
+    exact hs ((returns_failure_iff v s).2 h)
+  obtain ⟨h1, h2, h3⟩ := hsucc
+  apply (integrate_ev_of_body v s).subset
+  -- `pre` up to the branch on the kind of request
+  have hpre : pre v s (st0 s) = (fun st =>
+      if isPrediction (effK0 s.k0) = true then stepPred v s st
+      else if (!s.traits.hasCTO) = true ∧ integSmt (effK0 s.k0) ≠ .noStiffness then
+        .ret (-1) { st with msg := .noTangentOperator }
+      else stepIntegrate s (integSmt (effK0 s.k0)) st)
+      (log (if s.oob ≠ .inside ∧ s.policy = .warning then log (log (log (st0 s) .init) .cb) .warn
+        else log (log (st0 s) .init) .cb) .cbdone) := by
+    unfold pre
+    rw [stepInit_ok s _ h1]
+    simp only [R.bind]
+    rw [stepCheckBounds_ok s _ h2]
+  generalize (log (if s.oob ≠ .inside ∧ s.policy = .warning then log (log (log (st0 s) .init) .cb) .warn
+        else log (log (st0 s) .init) .cb) .cbdone) = st2 at hpre
+  by_cases hp : isPrediction (effK0 s.k0) = true
+  · -- prediction: the speed of sound is stored before `computePredictionOperator`
+    simp only [hp, if_true] at h3 hpre
+    obtain ⟨hq, -, -, -⟩ := h3
+    have hsos : stepPredSos s st2 = .next (log (log st2 .sos0) (.write .sos)) := by
+      unfold stepPredSos
+      rw [if_pos hfl, stepSosCompute_ok s false st2 (hq hfl)]
+      simp [R.bind]
+    have hbody : (body v s (st0 s)).st = (stepPredOp v s (log (log st2 .sos0) (.write .sos))).st := by
+      unfold body
+      rw [hpre]
+      unfold stepPred
+      rw [hsos]
+      simp only [R.bind]
+      have hc := stepPredOp_code v s (log (log st2 .sos0) (.write .sos))
+      cases hq' : stepPredOp v s (log (log st2 .sos0) (.write .sos)) with
+      | next st =>
+        rw [hq'] at hc
+        simp only [R.code_next] at hc
+        split_ifs at hc
+      | ret c st => rfl
+      | thr m st => rfl
+    rw [hbody]
+    exact (stepPredOp_prefix v s _).subset (by simp)
+  · -- integration: stored by what follows the integration, in either order
+    have hp' : isPrediction (effK0 s.k0) = false := by simpa using hp
+    simp only [hp', Bool.false_eq_true, if_false] at h3 hpre
+    obtain ⟨h3, h4, h5⟩ := h3
+    have hcto : ¬ ((!s.traits.hasCTO) = true ∧ integSmt (effK0 s.k0) ≠ .noStiffness) := by
+      rintro ⟨ha, hb⟩
+      rcases h3 with h3 | h3
+      · simp [h3] at ha
+      · exact hb h3
+    rw [if_neg hcto, stepIntegrate_ok s _ _ h4] at hpre
+    have hcode : (body v s (st0 s)).code = none := by
+      rw [body_code_eq]
+      have : ¬ (s.traits.hasCTO = false ∧ integSmt (effK0 s.k0) ≠ .noStiffness) := by
+        simpa using hcto
+      simp [h1, h2, hp', this, h4, h5]
+    obtain ⟨st', hst'⟩ := R.code_none hcode
+    rw [hst']
+    simp only [R.st_next]
+    unfold body at hst'
+    rw [hpre] at hst'
+    simp only [R.bind] at hst'
+    split at hst'
+    · unfold tailLate at hst'
+      obtain ⟨s1, _, hst'⟩ := R.bind_eq_next hst'
+      obtain ⟨s2, _, hst'⟩ := R.bind_eq_next hst'
+      obtain ⟨s3, _, hst'⟩ := R.bind_eq_next hst'
+      obtain ⟨s4, _, hst'⟩ := R.bind_eq_next hst'
+      injection hst' with hst'
+      subst hst'
+      simp [storeIf, hfl]
+    · unfold tailEarly at hst'
+      obtain ⟨s1, _, hst'⟩ := R.bind_eq_next hst'
+      obtain ⟨s2, _, hst'⟩ := R.bind_eq_next hst'
+      obtain ⟨s3, _, hst'⟩ := R.bind_eq_next hst'
+      rw [if_pos hfl] at hst'
+      obtain ⟨s4, _, hst'⟩ := R.bind_eq_next hst'
+      injection hst' with hst'
+      subst hst'
+      simp
+
 /-! ## the out-of-bounds policy -/
 
 /-- `Strict`: a variable out of its bounds makes the call fail -/
